@@ -1000,7 +1000,15 @@ impl<'a> Serializer<'a> {
         }
 
         self.write_indentation();
-        let col = self.map.look_up_pos(span.low()).position.column;
+        // `codemap` only ends lines at `\n` and counts a byte order mark, so the
+        // column is computed from the start of the comment's own line
+        let file = self.map.find_file(span.low());
+        let before = &file.source()[..(span.low() - file.span.low()) as usize];
+        let line_start = before.rfind(['\n', '\r', '\x0C']).map_or(0, |idx| idx + 1);
+        let col = before[line_start..]
+            .trim_start_matches('\u{feff}')
+            .chars()
+            .count();
         let mut lines = comment.lines();
 
         if let Some(line) = lines.next() {
